@@ -59,6 +59,17 @@ theorem returned_cells_one_call {β : Type} (src : DKey → β) (ofIt : Nat → 
   ⟨readData_ginv src ofIt avail grouped req its rl restart split store rows store' hG h,
    readData_cells src ofIt avail grouped req hreq its rl restart split store rows store' hG h⟩
 
+/-- **T1 (no exception from the cache logic)** on a cache with the invariant
+(in particular at every point of a history that started empty) a call returns
+as soon as some catalogued restart holds one of the requested iterations:
+`save_data`'s `list.index` always finds the iteration and no index is out of
+range. -/
+theorem read_returns {β : Type} (src : DKey → β) (ofIt : Nat → β) (avail : List Avail) (grouped : Bool)
+    (req : List (List Nat)) (its : List Nat) (rl : Nat) (restart : Option Nat) (split : Bool)
+    (store : Store β) (hG : GInv src ofIt store) (hfound : ∃ rt ∈ todoOf avail restart its, rt.2 ≠ []) :
+    ∃ r, readData src ofIt avail grouped req its rl restart split store = some r :=
+  readData_total src ofIt avail grouped req its rl restart split store hG hfound
+
 /-- **T3** `returned_structure`: with `restart = -1` the rows are exactly the
 rows of the uncached read (C11 `read_order_complete`: the sorted requested
 iterations, each from its latest restart), cached or not. -/
@@ -92,5 +103,10 @@ example :
       (afterCall (fun k => (k.it, match k.name with | .var v => v | _ => 0)) (fun i => (i, 99)) []
         ⟨[(0, 0, 40)], false, [[1]], [10], 0, none, true⟩)).map (fun r => r.2.get? ⟨0, 20, .var 1, 0⟩)
       = some (some (20, 1)) := by decide +kernel
+
+/-- the invariant is satisfiable and the hypotheses of `read_returns` are met by the example history -/
+example : GInv (fun k : DKey => (k.it, 0)) (fun i => (i, 99)) [] := ginv_empty _ _
+example : ∃ rt ∈ todoOf [(0, 0, 40), (1, 20, 60)] none [30, 10], rt.2 ≠ [] :=
+  ⟨(1, [30]), by decide +kernel, by simp⟩
 
 end AurelVerif.C12
